@@ -118,3 +118,11 @@ def oracle(case, out):
 
 def matches_known(k, v):
     return False
+
+
+# ---------------------------------------------------------------- real nodes through the public API (engine: extra_cases)
+# `Litep2p::new` (src/lib.rs) and `ConfigBuilder` (src/config.rs) hand every protocol its configuration; the `node` area
+# (checks/node.py) builds real nodes, compares the registration record with the wiring model (Model/Node/Wiring.lean)
+# and judges this property's real-time scenarios at node level.
+from . import node as _node  # noqa: E402
+_node.install(globals())
